@@ -196,3 +196,33 @@ def replay_fold_settings(name, model):
         seen.setdefault(key, cfg)
     print("no failing pair among", n, "nodes")
     return 0
+
+
+def replay_outer_reduce_flatten(n, o, r, model):
+    """C02-O2: the nodes emitted for ReduceSum(dim=r) o OuterProduct(dim=o) against a direct numpy evaluation"""
+    from cirkit.backend.torch.optimization.parameters import _emit_outer_reduce_flatten_parameter as emit
+    rng = np.random.default_rng(0)
+    m = _shapes(model, "in_shape1")
+    k2m = model.get("K2") if isinstance(model.get("K2"), int) else None
+    cands = ([(m, _clamp(k2m or 2))] if m and len(m) == n else []) + \
+        [(s, k2) for s in itertools.product((1, 2, 3), repeat=n) for k2 in (1, 2, 3)]
+    for s1, k2 in cands:
+        s2 = tuple(k2 if j == o else s1[j] for j in range(n))
+        for F in (1, 2):
+            x1, x2 = rng.normal(size=(F, *s1)), rng.normal(size=(F, *s2))
+            nodes = emit(tuple(s1), s2, o, r)
+            nodes = [type(nd)(**nd.config, num_folds=F) for nd in nodes]
+            y = nodes[0](torch.tensor(x1), torch.tensor(x2))
+            for nd in nodes[1:]:
+                y = nd(y)
+            a = np.expand_dims(x1, o + 2)
+            b = np.expand_dims(x2, o + 1)
+            z = (a * b).reshape((F, *[s1[j] * k2 if j == o else s1[j] for j in range(n)]))
+            ref = z.sum(axis=r + 1)
+            y = y.detach().numpy()
+            if y.shape != ref.shape or not np.allclose(y, ref, rtol=1e-8, atol=1e-10):
+                print(f"FAILING INPUT: in_shape1={s1} in_shape2={s2} outer_dim={o} reduce_dim={r} folds={F}: "
+                      f"{'shape ' + str(y.shape) + ' vs ' + str(ref.shape) if y.shape != ref.shape else 'max abs err %.3g' % float(np.abs(y - ref).max())}")
+                return 1
+    print("no failing input among", len(cands), "shapes")
+    return 0
